@@ -147,13 +147,16 @@ def run(ctx):
             ctx.judge('R2', c.name, nontrivial=bool(factory_sites), facts=facts)
     # ---- R3
     pt = m.get_function('loki/batch/scheduler.py', 'Scheduler.process_transformation')
-    sites = X.nodes_with_guards(pt.node, lambda n: (isinstance(n, ast.Assign) and "kwargs['item_factory']" in ast.unparse(n.targets[0]))
+    def _is_handover(n):
+        return isinstance(n, ast.Assign) and isinstance(n.targets[0], ast.Subscript) and isinstance(n.targets[0].slice, ast.Constant) \
+            and n.targets[0].slice.value == 'item_factory'
+    sites = X.nodes_with_guards(pt.node, lambda n: _is_handover(n)
                                 or (isinstance(n, ast.Call) and X.dotted_attr(n.func) in ('self.rekey_item_cache', 'self._discover')))
     want = {"kwargs['item_factory']": 'transformation.renames_items or transformation.creates_items',
             'self.rekey_item_cache': 'transformation.renames_items', 'self._discover': 'transformation.creates_items'}
     found = {}
     for n, guards in sites:
-        k = ast.unparse(n.targets[0]) if isinstance(n, ast.Assign) else X.dotted_attr(n.func)
+        k = "kwargs['item_factory']" if isinstance(n, ast.Assign) else X.dotted_attr(n.func)
         found[k] = guards
     for k, g in want.items():
         gs = found.get(k)
